@@ -21,7 +21,8 @@
     only starts the decoder on decodable types, and the payload / attribute / object tables
     only name decodable types. *)
 From Coq Require Import ZArith List Bool String.
-From KV Require Import Base Wire Cursor Schema SchemaSem.
+From KV Require Import Base Wire Cursor Schema SchemaSem KmipCodec.
+From KV Require TextFmt.
 Import ListNotations.
 Open Scope Z_scope.
 
@@ -131,3 +132,17 @@ Definition good_schema : schema := [bad_outer; good_inner].
 Definition bad_input : list Z :=
   [66;0;120;1; 0;0;0;40;  66;0;8;1; 0;0;0;32;
    66;0;10;2; 0;0;0;4; 0;0;0;7; 0;0;0;0;  66;0;9;2; 0;0;0;4; 0;0;0;9; 0;0;0;0].
+
+(** Outer{ Inner{ A = 7 } }: the panic point is reached whatever follows *)
+Definition bad_input_short : list Z :=
+  [66;0;120;1; 0;0;0;24;  66;0;8;1; 0;0;0;16;  66;0;10;2; 0;0;0;4; 0;0;0;7; 0;0;0;0].
+(** an empty KeyValue structure (tag 420045) *)
+Definition keyvalue_input : list Z := [66;0;69;1; 0;0;0;0].
+
+(** ttlv.UnmarshalXML / ttlv.UnmarshalJSON into a message: the reader cursors of TextFmt.v
+    (any tag / enumeration registry [G]) followed by the same typed decoder as
+    KmipCodec.kmip_unmarshal *)
+Definition kmip_unmarshal_xml (G : TextFmt.registry) (root : string) (doc : list TextFmt.xelem) (cut : bool) : res value :=
+  do c <- TextFmt.xml_cursor G doc cut ;; kmip_dec (TextFmt.xml_fmt G) root c.
+Definition kmip_unmarshal_json (G : TextFmt.registry) (root : string) (doc : TextFmt.jvalue) : res value :=
+  do c <- TextFmt.json_cursor G doc ;; kmip_dec (TextFmt.json_fmt G) root c.
